@@ -322,7 +322,11 @@ theorem parentCore_some_listed (lowest : Nat) (o : Obj) (cached : Option Nat) (c
     (h : Fe.parentCore cfg lowest o cached c s = (.ok (some (par, pt)), s')) : Listed c par.pid := by
   unfold Fe.parentCore at h
   split at h
-  · simp [pure_eq, M.pure] at h
+  · -- the lowest-PID stop answers None (or raises inside the identity probe): never an object
+    simp only [bind_eq, M.bind] at h
+    split at h
+    · simp [pure_eq, M.pure] at h
+    · cases h
   · simp only [bind_eq, M.bind] at h
     split at h
     · rename_i pp s1 _
